@@ -66,7 +66,7 @@ pub fn scenarios(tier: Tier, corpus: &Corpus) -> Vec<Scenario> {
 			desc: json!({"name": name}),
 		});
 	}
-	for s in c09::scenarios(tier).into_iter().filter(|s| s.name.contains("ab-claim") || s.name.contains("async-open")) {
+	for s in c09::scenarios(tier).into_iter().filter(|s| (s.name.contains("ab-claim") || s.name.contains("async-open")) && (th || !s.name.contains("deferred"))) {
 		let c = corpus.clone();
 		let name = format!("c09/{}", s.name);
 		let k = s.k;
@@ -79,7 +79,7 @@ pub fn scenarios(tier: Tier, corpus: &Corpus) -> Vec<Scenario> {
 	}
 	// behavioural equivalence: the node is rebuilt from its serialised manager + monitors at every
 	// point of the flow and must carry the flow to the same correct end (C10's oracles)
-	for s in c10::scenarios(tier).into_iter().filter(|s| !s.name.contains("lagging-manager") && (th || s.name.contains("abc-claim") || s.name.contains("ab-fail") || s.name.contains("fork-intercept"))) {
+	for s in c10::scenarios(tier).into_iter().filter(|s| !s.name.contains("lagging-manager") && (th || !s.name.contains("deferred")) && (th || s.name.contains("abc-claim") || s.name.contains("ab-fail") || s.name.contains("fork-intercept"))) {
 		let c = corpus.clone();
 		let name = format!("c10/{}", s.name);
 		let k = s.k;
